@@ -10,9 +10,17 @@ SHARD = 500
 
 def run(ctx):
     ctx.rule = ("programs over {eventually(script), fireEventually, flushEventualQueue, one reactor call} with scripts that "
-                "enqueue further scripts, call flush and/or raise; programs over {makePromise, send, sendOnly, when/_then/"
-                "_except, resolve with value / promise / Failure, one reactor call} with methods that return, raise or "
-                "return a promise; all words up to a length over a template alphabet plus seeded random longer ones; "
+                "enqueue further scripts, call flush and/or raise, and flush Deferreds whose callbacks perform arbitrary action "
+                "lists (eventually / fireEventually / flushEventualQueue again with such a callback, nested); an exhaustive "
+                "family of small flush-callback shapes (every callback body of <= 2 actions, nested <= 2 levels, requested on "
+                "the idle queue / with work pending / inside a callable; k outstanding observers x which one enqueues x which "
+                "one calls flush again x depth); programs over {makePromise, send, sendOnly, when/_then/"
+                "_except, resolve with value / promise / Failure, fire the Deferred a method returned, one reactor call} with "
+                "methods that return, raise, return a promise, send again re-entrantly, or return a Deferred (fired before the "
+                "send, before / after the delivery, never; with a value, a Failure, a promise); exhaustive families: chains of "
+                "1..3 hops in every order, backlogs of 1..3 messages of every kind (failing sendOnly included) before a "
+                "resolution, eventually()/fireEventually() interleavings; all words up to a length over a template alphabet "
+                "plus seeded random longer ones; "
                 "a case is non-trivial when at least one callable ran / one message was delivered or one observer fired")
     ctx.assumptions = [
         "Twisted's Deferred (callback/addCallback/succeed/fail/maybeDeferred) and task.Clock are used as they are; the "
@@ -20,13 +28,17 @@ def run(ctx):
         "log.err() in _turn is modelled as 'the exception is swallowed'",
         "the Promise model shares the FIFO discipline proved for the queue model (one reactor turn = run the tasks "
         "queued at its start, in order); promise.py's calls of eventually() are modelled as appends to that FIFO",
-        "method results that are Deferreds are not generated (values, raised exceptions and promises are)",
-        "measured, not proved: Promise._resolve2 is never entered on a promise that is already NEAR/BROKEN (the model "
-        "records such an entry as a crash that leaves the promise alone); checked on every generated program",
-        "the global exactly-once/in-order accounting of promise messages is proved only as three local facts "
-        "(C17_pr_*_partial); the global statement is evaluated directly on the code (oracle/delivery-order)",
-        "flush observers' callbacks are modelled as 'enqueue these scripts'; callbacks that themselves call "
-        "flushEventualQueue() are not generated"]
+        "a method result that is a Deferred is one Deferred per message, fired at most once by the program (Twisted's "
+        "AlreadyCalledError and Deferreds shared between messages are not generated); a message's method name always "
+        "exists on the target (a missing method is the same path as a raising one: maybeDeferred turns both into a Failure)",
+        "proved, and also measured on every generated program: Promise._resolve2 is never entered on a promise that is "
+        "already NEAR/BROKEN (C17_pr_links_exact / C17_pr_link_targets_chained / C17_pr_no_crash)",
+        "the model's events EWhen / EChained / EDelivered-to-a-Failure are bookkeeping without a counterpart in the "
+        "implementation trace (encoded as nothing); the theorems about them are tied to the code through the other events, "
+        "the final snapshot and the direct oracle (delivery-order, observer-count, wrong-resolution)",
+        "a flush observer's callback is modelled as a list of actions (eventually(script) / fireEventually / "
+        "flushEventualQueue() with a callback of the same kind, nested to any depth) that all return normally; callbacks "
+        "that raise, return Deferreds, or cancel/re-fire the flush Deferred are not modelled or generated"]
     ok, log = ctx.coq_build(["props/C17.vo"])
     from harness import c17_impl as impl
     before = len(ctx.failures)
@@ -148,7 +160,7 @@ class Ids:
         return self.n
 
 
-EV_LETTERS = "NRBQFTLXVK"
+EV_LETTERS = "NRBQFTLXVKGHJ"
 
 
 def ev_letter(ch, ids):
@@ -174,13 +186,35 @@ def ev_letter(ch, ids):
     if ch == "L":
         return ["act", ["flush", ids()]]
     if ch == "K":
-        return ["act", ["flush", ids(), [[ids(), [], False]]]]                        # flush whose callback enqueues work
+        return ["act", ["flush", ids(), [["enq", [ids(), [], False]]]]]               # flush whose callback enqueues work
+    if ch == "G":
+        return ["act", ["flush", ids(), [["flush", ids(), [["enq", [ids(), [], False]]]]]]]   # flush whose callback calls flush (whose callback enqueues)
+    if ch == "H":
+        return ["act", ["flush", ids(), [["enq", [ids(), [], False]], ["flush", ids()]]]]     # callback enqueues, then calls flush (deferred)
+    if ch == "J":                                                                     # a callable that calls flush whose callback calls flush
+        return ["act", ["enq", [ids(), [["flush", ids(), [["flush", ids(), [["enq", [ids(), [], False]]]]]]], False]]]
     raise ValueError(ch)
 
 
 def ev_word(w):
     ids = Ids()
     return [ev_letter(ch, ids) for ch in w]
+
+
+def rand_cb(rng, ids, cbdepth):
+    """the actions of a flush callback: enqueue / fireEventually / flush again (callbacks nested up to cbdepth)"""
+    acts = []
+    for _ in range(rng.choice([1, 1, 2, 2, 3])):
+        k = rng.random()
+        if k < 0.4 and cbdepth > 0:
+            acts.append(["flush", ids()] + ([rand_cb(rng, ids, cbdepth - 1)] if rng.random() < 0.7 else []))
+        elif k < 0.5:
+            acts.append(["fire", ids()])
+        elif k < 0.6:
+            acts.append(["flush", ids()])
+        else:
+            acts.append(["enq", rand_script(rng, ids, 0)])
+    return acts
 
 
 def rand_script(rng, ids, depth):
@@ -192,7 +226,7 @@ def rand_script(rng, ids, depth):
         elif k < 0.65:
             acts.append(["fire", ids()])
         elif k < 0.9:
-            acts.append(["flush", ids()] + ([[rand_script(rng, ids, 0)]] if rng.random() < 0.4 else []))
+            acts.append(["flush", ids()] + ([rand_cb(rng, ids, 2)] if rng.random() < 0.4 else []))
         else:
             acts.append(["enq", [ids(), [], rng.choice([0, 0, 1, 2, 5])]])
     return [ids(), acts, rng.choice([0, 0, 0, 0, 0, 1, 1, 2, 3, 4, 5])]
@@ -230,6 +264,71 @@ def ev_raise_family(ctx):
     return out
 
 
+def cb_bodies(ids, depth, width=2):
+    """every callback body of at most `width` actions over {enqueue a plain callable, flush with a callback of depth-1};
+    returns thunks (fresh ids per use)"""
+    if depth == 0:
+        return [lambda: []]
+    inner = cb_bodies(ids, depth - 1, width)
+    acts = [lambda: ["enq", [ids(), [], 0]]] + [(lambda b=b: ["flush", ids(), b()]) for b in inner]
+    out = [lambda: []]
+    for n in range(1, width + 1):
+        for combo in itertools.product(acts, repeat=n):
+            out.append(lambda combo=combo: [a() for a in combo])
+    return out
+
+
+def ev_flushcb_family(ctx):
+    """deterministic, exhaustive small shapes of flush callbacks that call flush again (never depends on the random stream).
+    (a) every callback body of <= 2 actions nested <= 2 levels, the request made (0) on the idle queue -- the callback runs
+        at once, nested --, (1) at top level with work pending, (2) inside a callable, (3) behind an earlier outstanding
+        observer, (4) in front of a later one;
+    (b) k = 1..3 outstanding observers x which one enqueues x which one calls flush again x enqueue before/after that call x
+        requested inside a callable or at top level x the nested callback 1 or 2 levels deep."""
+    out = []
+    ids = Ids()
+    for body in cb_bodies(ids, 2):
+        for where in range(5):
+            ids.n = 0
+            if where == 0:
+                prog = [["act", ["flush", ids(), body()]], ["turn"], ["turn"]]
+            elif where == 1:
+                prog = [["act", ["enq", [ids(), [], 0]]], ["act", ["flush", ids(), body()]], ["turn"], ["turn"]]
+            elif where == 2:
+                prog = [["act", ["enq", [ids(), [["flush", ids(), body()]], 0]]], ["turn"], ["turn"]]
+            elif where == 3:
+                prog = [["act", ["enq", [ids(), [], 0]]], ["act", ["flush", ids()]], ["act", ["flush", ids(), body()]], ["turn"], ["turn"]]
+            else:
+                prog = [["act", ["enq", [ids(), [], 0]]], ["act", ["flush", ids(), body()]], ["act", ["flush", ids()]], ["turn"], ["turn"]]
+            out.append(prog)
+    for k in (1, 2, 3):
+        for enq_by in range(-1, k):
+            for fl_by in range(-1, k):
+                for enq_first in ((True, False) if enq_by == fl_by and enq_by >= 0 else (True,)):
+                    for inside in (False, True):
+                        for depth in ((1, 2) if fl_by >= 0 else (1,)):
+                            ids = Ids()
+
+                            def cb(i):
+                                acts = []
+                                if i == fl_by:
+                                    inner = [["enq", [ids(), [], 0]]]
+                                    if depth == 2:
+                                        inner = [["flush", ids(), inner]]
+                                    acts.append(["flush", ids(), inner])
+                                if i == enq_by:
+                                    e = ["enq", [ids(), [], 0]]
+                                    acts = [e] + acts if enq_first else acts + [e]
+                                return acts
+                            reqs = [["flush", ids(), cb(i)] for i in range(k)]
+                            if inside:
+                                prog = [["act", ["enq", [ids(), reqs, 0]]]]
+                            else:
+                                prog = [["act", ["enq", [ids(), [], 0]]]] + [["act", r] for r in reqs]
+                            out.append(prog + [["turn"], ["turn"], ["act", ["flush", ids(), [["flush", ids()]]]], ["turn"]])
+    return out
+
+
 def ev_args_family(ctx):
     """eventually(cb, *args, **kwargs) with argument names that collide with names used inside the queue"""
     from harness import c17_impl as impl
@@ -248,16 +347,51 @@ def ev_args_family(ctx):
     return out
 
 
+def ev_fire_family(ctx):
+    """eventually() and fireEventually() interleaved in every order (2..4 submissions, thorough 5), at top level and
+    re-entrantly from inside a running callable: both primitives share ONE submission order (seeded change C17-r5s1
+    kept the Deferreds of fireEventually in a list of their own)"""
+    out = []
+    for n in range(2, ctx.n(4, 5) + 1):
+        for w in itertools.product("NVW", repeat=n):
+            if "V" not in w and "W" not in w:
+                continue
+            ids = Ids()
+            prog = []
+            for ch in w:
+                if ch == "N":
+                    prog.append(["act", ["enq", [ids(), [], 0]]])
+                elif ch == "V":
+                    prog.append(["act", ["fire", ids()]])
+                else:
+                    prog.append(["act", ["enq", [ids(), [["fire", ids()], ["enq", [ids(), [], 0]], ["fire", ids()]], 0]]])
+            out.append(prog + [["turn"], ["turn"]])
+    return out
+
+
 def ev_programs(ctx):
-    out = ev_raise_family(ctx) + ev_args_family(ctx)
+    fam = ev_flushcb_family(ctx)
+    ctx.extra["ev_flushcb_family_programs"] = len(fam)
+    out = fam + ev_raise_family(ctx) + ev_args_family(ctx) + ev_fire_family(ctx)
     maxlen = ctx.n(4, 5)
-    letters = EV_LETTERS if ctx.tier == "thorough" else "NRBQFTLK"
+    letters = "NRBQFTLXVK" if ctx.tier == "thorough" else "NRBQFTLK"
     for n in range(1, maxlen + 1):
         for w in itertools.product(letters, repeat=n):
             if "T" not in w and n > 2:
                 continue            # without a turn nothing runs: keep only the short ones
             out.append(ev_word(w))
-    for _ in range(ctx.n(600, 30000)):
+    # the letters G H J (flush callbacks that call flush again): every word that uses at least one of them, up to
+    # length 2 over the whole alphabet, then over alphabets reduced to the flush-related letters
+    if ctx.tier == "thorough":
+        extra = ((1, EV_LETTERS), (2, EV_LETTERS), (3, EV_LETTERS), (4, "NRBQFTLKGHJ"), (5, "NTLKGHJ"))
+    else:
+        extra = ((1, EV_LETTERS), (2, EV_LETTERS), (3, "NRBQFTLKGHJ"), (4, "NTLKGH"))
+    for n, alpha in extra:
+        for w in itertools.product(alpha, repeat=n):
+            if not set(w) & set("GHJ") or ("T" not in w and n > 2):
+                continue
+            out.append(ev_word(w))
+    for _ in range(ctx.n(450, 30000)):
         ids = Ids()
         prog = []
         for _ in range(ctx.rng.randint(2, 14)):
@@ -265,7 +399,7 @@ def ev_programs(ctx):
             if k < 0.35:
                 prog.append(["turn"])
             elif k < 0.5:
-                prog.append(["act", ["flush", ids()] + ([[rand_script(ctx.rng, ids, 1)]] if ctx.rng.random() < 0.5 else [])])
+                prog.append(["act", ["flush", ids()] + ([rand_cb(ctx.rng, ids, 3)] if ctx.rng.random() < 0.5 else [])])
             elif k < 0.58:
                 prog.append(["act", ["fire", ids()]])
             else:
@@ -335,6 +469,7 @@ def pr_word(w):
 
 def pr_random(rng):
     prog = []
+    dmids = []          # messages whose method returns a Deferred
     n = 0
     mid = 0
     w = 100
@@ -349,7 +484,9 @@ def pr_random(rng):
         elif k < 0.45:
             mid += 1
             b = rng.choice([["ret", mid + 40], ["ret", mid + 40], ["raise", mid + 60], ["retp", rng.randrange(n + 1)],
-                            ["sendret", rng.randrange(n), 1000 + mid, mid + 40]])
+                            ["sendret", rng.randrange(n), 1000 + mid, mid + 40], ["retd"]])
+            if b[0] == "retd":
+                dmids.append(mid)
             extra = []
             if rng.random() < 0.3:
                 extra = [[[rng.randrange(9) for _ in range(rng.randrange(3))],
@@ -365,7 +502,10 @@ def pr_random(rng):
         elif k < 0.93:
             x = rng.choice([["val", rng.randrange(1, 9)], ["fail", rng.randrange(1, 9)], ["prom", rng.randrange(n)],
                             ["prom", rng.randrange(n)]])
-            prog.append(["resolve", p, x])
+            if dmids and rng.random() < 0.35:
+                prog.append(["fire", rng.choice(dmids), x])       # the Deferred a method returns / will return fires
+            else:
+                prog.append(["resolve", p, x])
         else:
             prog.append(["new"])
             n += 1
@@ -419,6 +559,87 @@ def pr_chain_family(ctx):
     return out
 
 
+def pr_deferred_family(ctx):
+    """a message whose method returns a Deferred (defer.maybeDeferred(..).addBoth(resolver) in Promise._deliver): sent with
+    send / sendOnly before or after the target is resolved; the Deferred fires before the send, between send and
+    delivery, after the delivery, later still, or never; with a value, a Failure, a promise that is unresolved (and
+    resolved afterwards), NEAR or BROKEN; an observer on the result promise is registered before or after; a message
+    sent to the result promise must come out at what the Deferred fired with"""
+    out = []
+    for resolved_first in (False, True):
+        for kind in ("send", "sendonly"):
+            for fire_at in (0, 1, 2, 3, None):
+                for xk in range(5):
+                    for obs_early in (True, False):
+                        prog = [["new"], ["new"]]
+                        x = [["val", 61], ["fail", 62], ["prom", 1], ["prom", 1], ["prom", 1]][xk]
+                        if xk == 3:
+                            prog.append(["resolve", 1, ["val", 7]])
+                        if xk == 4:
+                            prog.append(["resolve", 1, ["fail", 8]])
+                        fire = ["fire", 1, x]
+                        if resolved_first:
+                            prog.append(["resolve", 0, ["val", 5]])
+                        if fire_at == 0:
+                            prog.append(fire)
+                        prog.append([kind, 0, 1, ["retd"]])
+                        if obs_early:
+                            prog.append(["when", 2, 101, "when"])
+                        if fire_at == 1:
+                            prog.append(fire)
+                        if not resolved_first:
+                            prog.append(["resolve", 0, ["val", 5]])
+                        prog += [["turn"], ["turn"]]
+                        if fire_at == 2:
+                            prog.append(fire)
+                        prog.append(["sendonly", 2, 2, ["ret", 0]])
+                        prog.append(["turn"])
+                        if fire_at == 3:
+                            prog.append(fire)
+                        if xk == 2:
+                            prog.append(["resolve", 1, ["val", 7]])
+                        if not obs_early:
+                            prog.append(["when", 2, 102, "then"])
+                        if fire_at is not None or obs_early:
+                            prog.append(["fire", 1, ["val", 99]])    # a second firing is never performed (already called); else: a late first one
+                        prog += [["turn"], ["turn"], ["turn"]]
+                        out.append(prog)
+    return out
+
+
+def pr_backlog_family(ctx):
+    """a backlog of 1..3 messages queued on an unresolved promise, each send / sendOnly with a method that returns,
+    raises an Exception or raises a BaseException (every combination for 1..2 messages; for 3 every combination with at
+    least one raising sendOnly), an observer registered before and one after the backlog, then the promise is resolved
+    with a value, a Failure, or through a chain; one more message afterwards.  Everything behind a failing message must
+    still be delivered, every result promise settled, every observer told (seeded change C17-r5s2: one queue entry for
+    the whole backlog + no Deferred around a sendOnly)."""
+    out = []
+    opts = [(k, b) for k in ("send", "sendonly") for b in ("ret", "exc", "base")]
+    for n in (1, 2, 3):
+        for combo in itertools.product(opts, repeat=n):
+            if n == 3 and not any(k == "sendonly" and b != "ret" for k, b in combo) and ctx.tier != "thorough":
+                continue
+            for res in ("val", "fail", "chain"):
+                prog = [["new"], ["new"], ["when", 0, 101, "when"]]
+                mid = 0
+                for k, b in combo:
+                    mid += 1
+                    beh = ["ret", 40 + mid] if b == "ret" else ["raise", 3 * mid + 61 if b == "exc" else 3 * mid + 60]
+                    prog.append([k, 0, mid, beh])
+                prog.append(["when", 0, 102, "then"])
+                if res == "val":
+                    prog.append(["resolve", 0, ["val", 5]])
+                elif res == "fail":
+                    prog.append(["resolve", 0, ["fail", 6]])
+                else:
+                    prog += [["resolve", 0, ["prom", 1]], ["turn"], ["resolve", 1, ["val", 7]]]
+                prog += [["sendonly", 0, mid + 1, ["raise", 97]], ["send", 0, mid + 2, ["ret", 50]],
+                         ["turn"], ["turn"], ["turn"], ["turn"]]
+                out.append(prog)
+    return out
+
+
 def pr_args_family(ctx):
     """messages (and _then/_except observers) whose extra arguments -- positional and keyword -- use names that collide
     with parameters / locals of the functions on the delivery path; sent before and after the resolution, with send and
@@ -458,7 +679,7 @@ def pr_args_family(ctx):
 
 
 def pr_programs(ctx):
-    out = pr_chain_family(ctx) + pr_args_family(ctx)
+    out = pr_chain_family(ctx) + pr_args_family(ctx) + pr_deferred_family(ctx) + pr_backlog_family(ctx)
     maxlen = ctx.n(3, 4)
     for n in range(1, maxlen + 1):
         for wd in itertools.product(PR_LETTERS, repeat=n):
@@ -469,7 +690,7 @@ def pr_programs(ctx):
         for wd in itertools.product(core, repeat=n):
             if "T" in wd and "S" in wd and ("V" in wd or "B" in wd or "C" in wd):
                 out.append(pr_word(wd))
-    for _ in range(ctx.n(1500, 60000)):
+    for _ in range(ctx.n(900, 60000)):
         out.append(pr_random(ctx.rng))
     return out
 
